@@ -12,7 +12,7 @@ fn main() {
 }
 #[cfg(all(feature = "x-parseq", feature = "parallel"))]
 fn main() {
-    imp::main()
+    shredh::run_main(imp::main)
 }
 
 #[cfg(all(feature = "x-parseq", feature = "parallel"))]
